@@ -1170,7 +1170,8 @@ def run(pid: str, tier: str, seed: int) -> int:   # noqa: C901
         "model_checking": mc_rows,
         "model_states": sum(r.distinct for r in mc_res),
         "model_actions_coverage": mc_cov,
-        "exhaustive": "within the constants of each model-checking config (bounded crashes / rollbacks / jumps); traces are enumerated "
+        "exhaustive": False,
+        "exhaustive_scope": "within the constants of each model-checking config (bounded crashes / rollbacks / jumps); traces are enumerated "
                       "(every commit / append / CAS point of each program) or sampled (schedules)",
         "traces_validated_against_impl": len(traces),
         "traces_accepted": n_acc,
@@ -1183,7 +1184,7 @@ def run(pid: str, tier: str, seed: int) -> int:   # noqa: C901
         "observations": obs_count,
         "formulas": props,
         "formula_failures_on_traces": {f: sum(1 for x in failed if x["formula"] == f) for f in sorted({x["formula"] for x in failed})},
-        "programs": sorted(by),
+        "programs": len(by), "program_names": sorted(by),
         "excluded_programs": sorted(EXCLUDED),
         "known_findings_seen": rep.known_hits,
         "binding_selftest": selftest,
